@@ -225,6 +225,29 @@ class ShapeEval:
                 self.branch(s)
             elif isinstance(s, ast.Return):
                 self.returns.append(s)
+            elif isinstance(s, ast.For) and not s.orelse and len(s.body) == 1 and isinstance(s.body[0], ast.Expr) and isinstance(s.body[0].value, ast.Call) and isinstance(s.body[0].value.func, ast.Attribute) and s.body[0].value.func.attr == "append" and isinstance(s.body[0].value.func.value, ast.Name) and s.body[0].value.func.value.id in self.seqs and len(s.body[0].value.args) == 1:
+                # for x in IT: L.append(E)   is   L += [E for x in IT]
+                call = s.body[0].value
+                comp = ast.ListComp(elt=call.args[0], generators=[ast.comprehension(target=s.target, iter=s.iter, ifs=[], is_async=0)])
+                ast.copy_location(comp, s)
+                ast.fix_missing_locations(comp)
+                nm = call.func.value.id
+                self.seqs[nm] = self.seqs[nm] + self.seq_of(comp)
+            elif isinstance(s, ast.Expr) and isinstance(s.value, ast.Call) and isinstance(s.value.func, ast.Attribute) and isinstance(s.value.func.value, ast.Name) and s.value.func.value.id in self.seqs and s.value.func.attr in ("append", "extend", "insert", "pop", "remove", "reverse", "sort", "clear"):
+                c = s.value
+                nm = c.func.value.id
+                if c.func.attr == "append" and len(c.args) == 1:
+                    self.seqs[nm] = self.seqs[nm] + self.seq_of(ast.List(elts=[c.args[0]], ctx=ast.Load()))
+                elif c.func.attr == "extend" and len(c.args) == 1:
+                    self.seqs[nm] = self.seqs[nm] + self.seq_of(c.args[0])
+                else:
+                    raise Unknown(f"`{src(c)[:60]}` edits a tracked shape list")
+            elif isinstance(s, (ast.For, ast.While, ast.With, ast.Try)):
+                for n in ast.walk(s):
+                    if isinstance(n, ast.Name) and n.id in self.seqs and isinstance(n.ctx, ast.Store):
+                        raise Unknown(f"the shape list `{n.id}` is written inside a compound statement (line {s.lineno})")
+                    if isinstance(n, ast.Call) and isinstance(n.func, ast.Attribute) and n.func.attr in ("append", "insert", "extend", "pop", "remove") and isinstance(n.func.value, ast.Name) and n.func.value.id in self.seqs:
+                        raise Unknown(f"the shape list `{n.func.value.id}` is edited inside a compound statement (line {s.lineno})")
 
     def branch(self, s: ast.If):
         """`if flag:` on a boolean option, or `if p:` on a count parameter (p == 0 in the else
